@@ -193,4 +193,20 @@ Section DFTD.
         rewrite dftD_bsum. unfold idft. rewrite fdiv_def, <- bsum_scal_r. apply bsum_ext. intros b0 _.
         rewrite IH by (split; [cbn in Hl; lia | exact Hk']). ring.
   Qed.
+
+  Lemma dftD_scal D c (u : list nat -> K) k : dftD n D w (fun j => c * u j) k = c * dftD n D w u k.
+  Proof.
+    revert u k. induction D as [|D IH]; intros u k; cbn [dftD]; [reflexivity|]. destruct k as [|b k]; [reflexivity|].
+    rewrite (dft_ext_all _ (fun a => dftD n D w (fun r => u (a :: r)) k * c)) by (intros a; rewrite IH; ring).
+    rewrite dft_scal_r. ring.
+  Qed.
+
+  (* trigonometric interpolation in D dimensions: the samples of p = sum_m a_m e^{2 pi i m.x/L} on the grid are n^D idftI(a); the coefficients
+     read off their transform, re-summed against ANY character table chi (an arbitrary query point), return sum_m a_m chi(m) *)
+  Theorem interpolation_exact_D D (a chi : list nat -> K) :
+    sumD K D n (fun k => dftD n D w (fun j => npts K D n * idftI n D w' a j) k / npts K D n * chi k) = sumD K D n (fun m => a m * chi m).
+  Proof.
+    apply (sumD_ext F n D). intros k Hk. apply in_gridD in Hk; [|exact n_pos].
+    rewrite dftD_scal. rewrite (dftD_idftI D a k Hk). pose proof (fpow_neq0 F _ D (n_nz F n n_pos)) as Hp. unfold npts. field. exact Hp.
+  Qed.
 End DFTD.
